@@ -12,15 +12,15 @@ cleanup() { git -C /repo worktree remove --force "$W" >/dev/null 2>&1; rm -rf "$
 trap cleanup EXIT
 cd "$W"
 ok=1
-cp -r "$SD"/demo/* "$W/$DEST/" 2>/dev/null
+mkdir -p "$W/$DEST"; cp -r "$SD"/demo/* "$W/$DEST/" 2>/dev/null
 if bash -c "$CMD" >"$W/.demo0.log" 2>&1; then echo "  demo WITHOUT patch: passes"; else echo "  demo WITHOUT patch: FAILS (bad seed)"; tail -5 "$W/.demo0.log"; ok=0; fi
 git apply "$SD/patch.diff" || { echo "  patch does not apply"; exit 2; }
 for tags in "" "purego" "force32bit"; do
   go build -tags "$tags" ./... >"$W/.b.log" 2>&1 || { echo "  build -tags '$tags' FAILS"; head -3 "$W/.b.log"; ok=0; }
 done
 # the suite must pass WITHOUT the demo file
-find "$W/$DEST" -name 'zz_demo*' -exec mv {} {}.off \;
+case "$DEST" in *zz_demo*) mv "$W/$DEST" "$W/.demo_pkg_off";; *) find "$W/$DEST" -name 'zz_demo*' -exec mv {} {}.off \; ;; esac
 if go test -count=1 ./... >"$W/.t.log" 2>&1; then echo "  existing test-suite with patch: passes"; else echo "  existing test-suite with patch: FAILS (bad seed)"; grep -v "^ok" "$W/.t.log" | head -5; ok=0; fi
-find "$W/$DEST" -name 'zz_demo*.off' | while read f; do mv "$f" "${f%.off}"; done
+case "$DEST" in *zz_demo*) mv "$W/.demo_pkg_off" "$W/$DEST";; *) find "$W/$DEST" -name 'zz_demo*.off' | while read f; do mv "$f" "${f%.off}"; done;; esac
 if bash -c "$CMD" >"$W/.demo1.log" 2>&1; then echo "  demo WITH patch: passes (bad seed: nothing demonstrated)"; ok=0; else echo "  demo WITH patch: fails (as required)"; fi
 [ $ok = 1 ] && echo "  CONFIRMED" || echo "  NOT CONFIRMED"
